@@ -198,6 +198,9 @@ pub struct CaseOut {
 
 macro_rules! c06_cfg {
     ($fname:ident, $m:ident, $uni:ty) => {
+        c06_cfg!($fname, $m, $uni, false);
+    };
+    ($fname:ident, $m:ident, $uni:ty, $p1:expr) => {
         pub fn $fname(h: &History, fault: &Fault, seed: u64) -> Result<CaseOut, String> {
             use crate::chal::$m as U;
             type BF = U::F;
@@ -304,7 +307,7 @@ macro_rules! c06_cfg {
             }
             // prove + verify with the real prover/verifier
             // the recompose tables packed 1, 2 or 3 operations per row, by case seed
-            let cfg = ProverCfg { npo: BuilderOpts { poseidon: true, recompose: true }, recompose_lanes: [1usize, 2, 3][(seed % 3) as usize], ..ProverCfg::default() };
+            let cfg = ProverCfg { npo: BuilderOpts { poseidon: true, recompose: true }, recompose_lanes: [1usize, 2, 3][(seed % 3) as usize], poseidon1: $p1, ..ProverCfg::default() };
             let accepted = (|| -> Result<(), pipe::Fail> {
                 let (keys, info) = pipe::keygen::<$uni>(&circuit, &cfg)?;
                 let proof = pipe::prove::<$uni>(&keys, &traces, &cfg, None)?;
@@ -318,10 +321,11 @@ macro_rules! c06_cfg {
 c06_cfg!(case_kb4, kb4, crate::uni::Kb4);
 c06_cfg!(case_bb4, bb4, crate::uni::Bb4);
 c06_cfg!(case_kb5q1, kb5q1, crate::uni::Kb5q);
+c06_cfg!(case_kb5q1p1, kb5q1p1, crate::uni::Kb5q, true);
 
 /// (limbs of the permutation state, rate limbs) as the executor sees them
 pub fn state_shape(cfg: &str) -> (usize, usize) {
-    if cfg == "kb5q1" { (16, 8) } else { (4, 2) }
+    if cfg == "kb5q1" || cfg == "kb5q1p1" { (16, 8) } else { (4, 2) }
 }
 
 /// C12 gadget arm: a G-prog program (decompose_to_bits / decompose_ext_to_base_coeffs on public
@@ -426,6 +430,7 @@ pub fn run_case(cfg: &str, h: &History, f: &Fault, seed: u64) -> Result<CaseOut,
     match observe(|| match cfg {
         "bb4" => case_bb4(h, f, seed),
         "kb5q1" => case_kb5q1(h, f, seed),
+        "kb5q1p1" => case_kb5q1p1(h, f, seed),
         _ => case_kb4(h, f, seed),
     }) {
         Ok(r) => r,
@@ -621,7 +626,7 @@ pub fn one_run(ctx: &Ctx, prop: &str, idx: u64, out: &mut RunOut) {
         }
     }
     let mut rng = Rng::new(ctx.seed, prop, idx);
-    let cfg = if prop == "C06" { ["kb4", "bb4", "kb5q1"][(idx % 3) as usize] } else if idx % 2 == 0 { "kb4" } else { "bb4" };
+    let cfg = if prop == "C06" { ["kb4", "bb4", "kb5q1", "kb4", "bb4", "kb5q1p1"][(idx % 6) as usize] } else if idx % 2 == 0 { "kb4" } else { "bb4" };
     let (order, d, rate) = crate::props::c05::cfg_params(cfg);
     let h = gen_history_for(prop, &mut rng, order, d, rate, ctx.tier.pick(12, 24));
     let seed = mix(mix(ctx.seed, idx), 7);
